@@ -9,6 +9,7 @@
 //   mdinfo   size / empty / extents of an mdspan or mdarray
 //   ext_ctor extents constructed through one of its constructors, observed through extent(r)
 //   subext   submdspan_extents with full_extent / single-index slices
+//   eq       operator== / operator!= of two extents objects / two layout_left / layout_right mappings
 //   span     first / last / subspan (run-time and template forms, static and dynamic source)
 //   span_obs observers and iteration of a span
 // The events are judged by spec/MdTrace.tla.  This file contains no oracle and no comparison.
@@ -16,7 +17,8 @@
 // (libstdc++ 12 has no <mdspan>): the calibration build.
 // -DVH_PART=k selects what is compiled (compile time): 0 = spans and every rank 0..2 pattern (index type int);
 // 1..5 = every rank 3 pattern whose first extent is D,0,1,2,3; 6 = a sample of rank 4 patterns; 7 = a sample of
-// patterns for the other index types (int8 ... uint64); 8 = extents constructors and submdspan_extents.
+// patterns for the other index types (int8 ... uint64); 8 = extents constructors and submdspan_extents; 9 = operator== / != of
+// extents and of layout_left/right mappings on every pair of exported tuples.
 #include "common.hpp"
 
 #include <array>
@@ -715,6 +717,91 @@ void convert_some3(Vec const& ext)
     run_convert<md::extents<J, 2, 3, DYN>, md::extents<I, 2, DYN, 1>>(ext);
 }
 
+// ---- equality --------------------------------------------------------------------------------------------------------
+// extents == / != and layout_left/right mapping == / != between two extents types, on every pair of exported tuples
+// the two types can hold (step > 1: a sample of the tuples)
+template <typename EA, typename EB>
+void run_eq(std::vector<Vec> const& exts, size_t step = 1)
+{
+    Vec const pa = pattern_of<EA>(), pb = pattern_of<EB>();
+    auto emit = [&](char const* what, Vec const& a, Vec const& b, bool eq, bool ne) {
+        Ev e("eq");
+        e.str("what", what).str("it", tname<typename EA::index_type>()).str("it2", tname<typename EB::index_type>());
+        e.arr("pat", pa).arr("pat2", pb).arr("ext", a).arr("ext2", b).flag("eq", eq).flag("ne", ne).end();
+    };
+    for (size_t i = 0; i < exts.size(); i += step) {
+        Vec const& a = exts[i];
+        if (!compatible<EA>(a)) { continue; }
+        auto const ea = make_ext<EA>(a);
+        for (size_t j = 0; j < exts.size(); j += step) {
+            Vec const& b = exts[j];
+            if (!compatible<EB>(b)) { continue; }
+            auto const eb = make_ext<EB>(b);
+            if constexpr (requires { ea == eb; }) { emit("extents", a, b, ea == eb, ea != eb); }
+            if constexpr (EA::rank() == EB::rank()) {
+                {
+                    typename md::layout_right::template mapping<EA> ma(ea);
+                    typename md::layout_right::template mapping<EB> mb(eb);
+                    emit("right", a, b, ma == mb, ma != mb);
+                }
+                {
+                    typename md::layout_left::template mapping<EA> ma(ea);
+                    typename md::layout_left::template mapping<EB> mb(eb);
+                    emit("left", a, b, ma == mb, ma != mb);
+                }
+            }
+        }
+    }
+}
+template <typename I, typename J, size_t A, size_t B>
+void eq_to_all2(std::vector<Vec> const& exts)
+{
+    [&]<size_t... C>(std::index_sequence<C...>) {
+        (run_eq<md::extents<I, PV[A], PV[B]>, md::extents<J, PV[C / 5], PV[C % 5]>>(exts), ...);
+    }(std::make_index_sequence<25>{});
+}
+template <typename I, typename J>
+void eq_all2(std::vector<Vec> const& exts)
+{
+    [&]<size_t... C>(std::index_sequence<C...>) { (eq_to_all2<I, J, C / 5, C % 5>(exts), ...); }(std::make_index_sequence<25>{});
+}
+template <typename I, typename J>
+void eq_all1(std::vector<Vec> const& exts)
+{
+    [&]<size_t... C>(std::index_sequence<C...>) {
+        (run_eq<md::extents<I, PV[C / 5]>, md::extents<J, PV[C % 5]>>(exts), ...);
+    }(std::make_index_sequence<25>{});
+}
+template <typename EA, typename... EBs>
+void eq_row(std::vector<Vec> const& exts, size_t step)
+{
+    (run_eq<EA, EBs>(exts, step), ...);
+}
+template <typename... Es>
+void eq_square(std::vector<Vec> const& exts, size_t step = 1)
+{
+    (eq_row<Es, Es...>(exts, step), ...);
+}
+void run_eq_all(std::vector<Vec> const& exts)
+{
+    using I = int;
+    eq_square<md::extents<I>, md::extents<long>>(exts);
+    eq_all1<I, I>(exts);
+    eq_all1<I, unsigned char>(exts);
+    eq_all2<I, I>(exts);
+    eq_square<md::extents<I, DYN, DYN, DYN>, md::extents<I, 2, DYN, 3>, md::extents<I, DYN, 3, DYN>, md::extents<I, DYN, DYN, 1>,
+              md::extents<I, 3, 2, 1>, md::extents<I, 2, DYN, DYN>, md::extents<I, 3, 3, 3>, md::extents<unsigned long, DYN, DYN, DYN>,
+              md::extents<short, 1, DYN, 2>>(exts);
+    eq_square<md::extents<I, DYN, DYN, DYN, DYN>, md::extents<I, 2, DYN, 3, DYN>, md::extents<I, DYN, 3, DYN, 2>,
+              md::extents<long, 3, 2, 1, 3>>(exts, 7);
+    // different ranks never compare equal
+    eq_row<md::extents<I>, md::extents<I, DYN>, md::extents<I, 0>, md::extents<I, 1>>(exts, 1);
+    eq_row<md::extents<I, DYN>, md::extents<I>, md::extents<I, DYN, DYN>, md::extents<I, 1, DYN>, md::extents<I, 2, 2>>(exts, 1);
+    eq_row<md::extents<I, 2>, md::extents<I, 2, 2>, md::extents<I, DYN, 1>, md::extents<I, 2, 1, 1>>(exts, 1);
+    eq_row<md::extents<I, DYN, DYN>, md::extents<I, DYN>, md::extents<I, DYN, DYN, DYN>, md::extents<I, DYN, DYN, 1>>(exts, 3);
+    eq_row<md::extents<I, 2, 3>, md::extents<I, 2, 3, 1>, md::extents<I, 2>, md::extents<I, DYN, DYN, DYN>>(exts, 1);
+}
+
 // ---- span ------------------------------------------------------------------------------------------------------------
 template <typename S>
 constexpr long ext_of()
@@ -946,6 +1033,7 @@ void* work(void* p)
         return nullptr;
     }
     auto lines = vh::read_ndjson(a.argv[1]);
+    std::vector<Vec> all_exts;
     for (auto const& j : lines) {
         Line ln;
         ln.k = j.at("k").get<std::string>();
@@ -956,8 +1044,12 @@ void* work(void* p)
             ln.o = j.at("o").get<long>();
             ln.c = j.at("c").get<long>();
         }
+        if (ln.k == "ext") { all_exts.push_back(ln.ext); }
         process(ln);
     }
+#if VH_PART == 9
+    run_eq_all(all_exts);
+#endif
     flush_out();
     std::fprintf(stderr, "SUMMARY part=%d events=%ld traps=%ld\n", int(VH_PART), g_events, g_traps);
     a.rc = 0;
